@@ -527,11 +527,21 @@ func runC09(c *core.Case, st *core.CaseStats, rep func(fn, kind string, in, exp,
 			Gcm int `json:"gcm_len"`
 		}
 		json.Unmarshal(c.Out, &o)
-		plain, secret, aad := rb(n), rb(sl), rb(rng.Intn(9))
-		in := map[string]interface{}{"n": n, "secretlen": sl, "form": form, "plain": plain, "secret": secret}
+		// the arguments are adjacent windows of one record of the caller (secret | plaintext | additional data | more):
+		// whatever a callee writes behind the end of one argument lands in the next one and is noticed
+		al := rng.Intn(9)
+		rec := rb(sl + n + al + 24)
+		rec0 := append([]byte{}, rec...)
+		secret, plain, aad := rec[:sl], rec[sl:sl+n], rec[sl+n:sl+n+al]
+		in := map[string]interface{}{"n": n, "secretlen": sl, "form": form, "plain": rec0[sl : sl+n], "secret": rec0[:sl]}
 		st.Nontrivial++
 		var enc, dec []byte
 		var err error
+		defer func() {
+			if !bytes.Equal(rec, rec0) {
+				rep("Encrypt/Decrypt", "value", in, "the caller's memory (arguments and what lies behind them) unchanged", rec)
+			}
+		}()
 		if guard("Encrypt", in, func() {
 			switch form {
 			case "ss":
@@ -594,6 +604,38 @@ func runC09(c *core.Case, st *core.CaseStats, rep func(fn, kind string, in, exp,
 					rep("GCMDecrypt", "value", in, plain, fmt.Sprint(dec, err))
 				}
 			}
+		}
+	case "opensslform":
+		n, wrap := argI(c, 0), argS(c, 1)
+		plain, secret, salt := rb(n), rb(11), rb(8)
+		k2, iv2 := evp(secret, salt)
+		msg := append(append([]byte("Salted__"), salt...), cbcRef(k2, iv2, plain)...)
+		one := base64.StdEncoding.EncodeToString(msg)
+		width, nl := 64, "\n"
+		switch wrap {
+		case "oneline":
+			width = len(one) + 1
+			nl = ""
+		case "crlf64":
+			nl = "\r\n"
+		case "lf76":
+			width = 76
+		}
+		var txt strings.Builder
+		for i := 0; i < len(one); i += width {
+			j := i + width
+			if j > len(one) {
+				j = len(one)
+			}
+			txt.WriteString(one[i:j])
+			txt.WriteString(nl)
+		}
+		in := map[string]interface{}{"n": n, "form": wrap, "text": txt.String()}
+		st.Nontrivial++
+		var dec []byte
+		var err error
+		if guard("Decrypt", in, func() { dec, err = cryptz.Decrypt(txt.String(), secret) }) && (err != nil || !bytes.Equal(dec, plain)) {
+			rep("Decrypt", "value", in, "the plaintext (text as written by openssl enc -a)", fmt.Sprint(dec, err))
 		}
 	case "tamper":
 		mode, n, part, pos := argS(c, 0), argI(c, 1), argS(c, 2), argS(c, 3)
